@@ -299,7 +299,7 @@ func cmdCheck(args []string) int {
 			case ob.Verdict == "sat":
 				// counterexample: replay natively before reporting
 				rp := filepath.Join(verifRoot, "replays", fmt.Sprintf("%s_%s_%d.json", *prop, r.Name, len(lines)))
-				rec := ReplayRecord{Property: *prop, Harness: r.Name, Pkg: r.Pkg, Label: ob.Label, Kind: ob.Kind, Site: ob.Pos, Vector: ob.Model, ReplayFn: d.ReplayFn, Redirects: specs[i].Redirects, Patches: d.ReplayPatches}
+				rec := ReplayRecord{Property: *prop, Harness: r.Name, Pkg: r.Pkg, Label: ob.Label, Kind: ob.Kind, Site: ob.Pos, Vector: ob.Model, ReplayFn: d.ReplayFn, Redirects: specs[i].Redirects, Patches: d.ReplayPatches, ExtraPkgs: specs[i].ExtraPkgs}
 				writeJSON(rp, rec)
 				reproduced, detail := replayRecord(&rec)
 				os["replay"] = rp
